@@ -54,8 +54,14 @@ class Prop:
             for _ in range(rng.randint(2, 7)):
                 r = rng.random()
                 if r < 0.3:
-                    parts.append([gen.render(gen.payload_bits(rng, rng.choice(['MessageType1', 'MessageType18', 'MessageType4'])),
-                                             chan=rng.choice('AB'))[0]])
+                    one = gen.render(gen.payload_bits(rng, rng.choice(['MessageType1', 'MessageType18', 'MessageType4'])),
+                                     chan=rng.choice('AB'))[0]
+                    if rng.random() < 0.1:
+                        one = one[:one.rindex(b'*')]              # no checksum field at all
+                    elif rng.random() < 0.1:
+                        # the shortest sentences there are: hardly any payload, no sequence id
+                        one = gen.sentence('AIVDM', 1, 1, '', rng.choice('AB'), rng.choice(['', '0', '1P']), 0)
+                    parts.append([one])
                 elif r < 0.6:
                     n = rng.randint(2, 4)
                     bits = gen.payload_bits(rng, 'MessageType8', length=rng.randint(200, 900))
@@ -70,6 +76,10 @@ class Prop:
                         # an incomplete set: orphaned fragments stay behind in their slot (all front-ends must
                         # still agree on what later messages in that slot look like)
                         del lines[rng.randrange(len(lines))]
+                    if rng.random() < 0.15:
+                        # a sentence whose checksum was cut off is still a sentence (flagged invalid)
+                        k = rng.randrange(len(lines))
+                        lines[k] = lines[k][:lines[k].rindex(b'*')]
                     parts.append(lines)
                 elif r < 0.72:
                     parts.append([gen.gatehouse(d=rng.choice([1, 28, 31]), mo=rng.choice([1, 2, 12]))])
